@@ -72,7 +72,9 @@ pub fn compare(bytes: &[u8]) -> Outcome {
                 return dis("prefix", format!("header delivered {} times", col.headers));
             }
             let h = col.header.as_ref().unwrap();
-            if h.version != *version || h.bound != *bound {
+            // (the version word is compared on its major / minor bytes: the two other bytes are reserved, and the
+            //  header type stores a (major, minor) pair)
+            if (h.version & 0x00FF_FF00) != (*version & 0x00FF_FF00) || h.bound != *bound {
                 return dis("prefix", format!("delivered header version {:#x} bound {} differ from the input's {:#x} / {}", h.version, h.bound, version, bound));
             }
             // delivered instructions = the models of the instructions preceding the first malformed one
